@@ -63,6 +63,9 @@ func reference(rs []vegeta.Result) *refMetrics {
 		if e := r.Timestamp.Add(r.Latency); i == 0 || e.After(m.end) {
 			m.end = e
 		}
+		// by status code alone. The README words it as "didn't error and had status codes between 200 and 400", but
+		// the repository's TestMetrics_Add pins the ratio for results that carry an error text next to a 200 and a
+		// 302: the code decides (vegeta's own attacker never produces the two together)
 		if r.Code >= 200 && r.Code < 400 {
 			m.success++
 		}
@@ -180,6 +183,11 @@ func runReport(prop string, t *simrt.Tape, keep bool) simrt.Outcome {
 		if code < 200 || code >= 400 {
 			e = errTexts[2+t.Choose(4)]
 		}
+		if t.Prob(1, 10) {
+			// code and error text are independent fields of a result (a results file may come from anywhere): an
+			// error next to a 2xx code, no error next to a 5xx code
+			e = []string{"", errTexts[2+t.Choose(4)]}[t.Choose(2)]
+		}
 		rs[i] = vegeta.Result{Attack: "a", Seq: uint64(i), Code: code, Timestamp: ts, Latency: time.Duration(l), BytesIn: uint64(t.Choose(100000)), BytesOut: uint64(t.Choose(5000)), Error: e}
 	}
 	ref := reference(rs)
@@ -198,7 +206,43 @@ func runReport(prop string, t *simrt.Tape, keep bool) simrt.Outcome {
 		for i := range order {
 			order[i] = i
 		}
-		if h > 0 || t.Prob(1, 2) {
+		r.arrival = "as-generated-or-shuffled"
+		if n > 2000 && t.Prob(1, 4) {
+			// two sorted streams merged one for one (two targets that both get faster; or the fastest and the
+			// slowest requests alternating towards the middle): every new pair lands on both sides of a hole that
+			// later samples fill
+			byLat := make([]int, n)
+			for i := range byLat {
+				byLat[i] = i
+			}
+			sort.SliceStable(byLat, func(a, b int) bool { return rs[byLat[a]].Latency < rs[byLat[b]].Latency })
+			half := n / 2
+			k := 0
+			if t.Prob(1, 2) {
+				r.arrival = "two-descending-streams-interleaved"
+				for i := 0; i < half || i < n-half; i++ {
+					if half-1-i >= 0 {
+						order[k] = byLat[half-1-i]
+						k++
+					}
+					if n-1-i >= half {
+						order[k] = byLat[n-1-i]
+						k++
+					}
+				}
+			} else {
+				r.arrival = "outside-in"
+				for i, j := 0, n-1; i <= j; i, j = i+1, j-1 {
+					order[k] = byLat[i]
+					k++
+					if i != j {
+						order[k] = byLat[j]
+						k++
+					}
+				}
+			}
+			r.stats["fault.adversarial-arrival-order"]++
+		} else if h > 0 || t.Prob(1, 2) {
 			switch t.Choose(3) {
 			case 0: // reversed
 				for i, j := 0, n-1; i < j; i, j = i+1, j-1 {
@@ -428,7 +472,14 @@ func checkFinal(r *run, m *vegeta.Metrics, ref *refMetrics, n int) {
 			bad("throughput", m.Throughput, want)
 		}
 	} else {
-		// the documentation defines no value for a zero attack duration: finite and non-negative
+		// the rate is defined over the attack period, which is empty here; the throughput over the total period
+		// (attack + wait), which is not as long as the last response took any time at all
+		if total := dur + wait; total > 0 {
+			if want := float64(ref.success) / total.Seconds(); !ulpClose(m.Throughput, want) {
+				bad("throughput", m.Throughput, want)
+			}
+		}
+		// where the documentation defines no value: finite and non-negative
 		for _, v := range []float64{m.Rate, m.Throughput} {
 			if math.IsNaN(v) || math.IsInf(v, 0) || v < 0 {
 				bad("rate-zero-duration", v, "a finite non-negative number")
@@ -527,16 +578,27 @@ func checkRank(r *run, sorted []int64, q float64, v time.Duration, name, when, s
 	if int64(v) >= a && int64(v) <= b {
 		return true
 	}
-	// characterise the miss: between which adjacent observations does the value lie, and how far (in ranks) are they
-	tags := map[string]string{"when": when, "q": name, "shape": shape, "cause": "other"}
+	// characterise the miss: where does the reported value sit among the observations, and how far (in ranks) is
+	// that from the ideal rank
+	tags := map[string]string{"when": when, "q": name, "shape": shape, "cause": "other", "arrival": r.arrival}
 	params := map[string]float64{"n": float64(n)}
-	i := sort.Search(n, func(i int) bool { return sorted[i] >= int64(v) }) // first observation >= value
-	if i > 0 && i < n && sorted[i] > int64(v) && sorted[i-1] < int64(v) {
-		// strictly between the adjacent observations of ranks i and i+1 (1-based): an interpolated value
+	below := sort.Search(n, func(i int) bool { return sorted[i] >= int64(v) })  // observations < v
+	notAbove := sort.Search(n, func(i int) bool { return sorted[i] > int64(v) }) // observations <= v
+	// v sits between the 1-based ranks `below` and `notAbove+1` (it equals the observations in between, if any)
+	far := 0.0
+	switch {
+	case ideal < float64(below):
+		far = float64(below) - ideal
+	case ideal > float64(notAbove+1):
+		far = ideal - float64(notAbove+1)
+	}
+	params["rank_error_pct_of_n"] = far / float64(n) * 100
+	if below == notAbove && below > 0 && below < n {
+		// strictly between two adjacent observations: an interpolated value
 		tags["cause"] = "interpolated-across-gap"
-		far := math.Max(math.Abs(float64(i)-ideal), math.Abs(float64(i+1)-ideal))
-		params["rank_error_pct_of_n"] = far / float64(n) * 100
-		params["gap_ratio"] = float64(sorted[i]-sorted[i-1]) / math.Max(1, float64(sorted[n-1]-sorted[0])) // share of the whole range spanned by this one gap
+		params["gap_ratio"] = float64(sorted[below]-sorted[below-1]) / math.Max(1, float64(sorted[n-1]-sorted[0])) // share of the whole range spanned by this one gap
+	} else if below < notAbove {
+		tags["cause"] = "an-observed-value-at-the-wrong-rank"
 	}
 	msg := fmt.Sprintf("%s = %v for %d latencies (%s): the observed values at ranks %d..%d (ideal rank %.2f, allowed error 1+1%%) are %v..%v",
 		name, v, n, shape, lo, hi, ideal, time.Duration(a), time.Duration(b))
